@@ -551,7 +551,58 @@ func main() {
 		return has(b, `if idx\.tempTx == nil \{ return nil \} err := idx\.tempTx\.Rollback\(\) idx\.tempTx = nil return err`)
 	})
 
+	// ---------------- method sets / server construction ----------------
+	// database/sql, encoding/gob and grpc discover optional behaviour by type assertion: a method ADDED to one of these
+	// types changes which path every call takes without any call site changing. The sets are therefore facts.
+	facts["driverMethodSet"] = methodSet("driver") == "fileConn.Begin fileConn.BeginTx fileConn.Close fileConn.Commit fileConn.IsValid fileConn.Ping fileConn.Prepare fileConn.PrepareContext fileConn.QueryContext fileConn.ResetSession fileConn.Rollback fileConn.prepare fileStmt.Close fileStmt.Exec fileStmt.NumInput fileStmt.Query fileStmt.query grpcConn.Begin grpcConn.BeginTx grpcConn.Close grpcConn.Commit grpcConn.IsValid grpcConn.Ping grpcConn.Prepare grpcConn.ResetSession grpcConn.Rollback grpcConn.prepare grpcStmt.Close grpcStmt.Exec grpcStmt.NumInput grpcStmt.Query grpcStmt.query rows.Close rows.ColumnTypeDatabaseTypeName rows.ColumnTypeLength rows.ColumnTypeNullable rows.ColumnTypePrecisionScale rows.ColumnTypeScanType rows.Columns rows.Next updogDriver.Open updogDriver.openConn updogDriver.openFile"
+	// the stored types of the library have no custom (de)serialisation or finalisation hooks
+	facts["libraryNoCodecHooks"] = !regexp.MustCompile(`\b(GobEncode|GobDecode|MarshalBinary|UnmarshalBinary|MarshalJSON|UnmarshalJSON)\b|runtime\.SetFinalizer`).MatchString(methodSet(".") + " " + allSource("."))
+	fact("serverPlainGrpcServer", fn("cmd/updog/server.go", "", "serverCmd"), func(b *ast.BlockStmt) bool {
+		return has(b, `s := grpc\.NewServer\(\)`) && !has(b, `Interceptor|grpc\.[A-Z][A-Za-z]*Option|signal\.Notify`)
+	})
+
 	writeOutputs(*leanOut, *jsonOut)
+}
+
+// methodSet lists "Type.Method" for every method declared in the non-test Go files of a package directory
+func methodSet(dir string) string {
+	var out []string
+	for _, f := range pkgFiles(dir) {
+		for _, d := range load(f).Decls {
+			if fd, ok := d.(*ast.FuncDecl); ok && fd.Recv != nil && len(fd.Recv.List) > 0 {
+				out = append(out, strings.TrimPrefix(src(fd.Recv.List[0].Type), "*")+"."+fd.Name.Name)
+			}
+		}
+	}
+	sort.Strings(out)
+	return strings.Join(out, " ")
+}
+
+// pkgFiles: the non-test, non-generated-hook Go files of a directory of the repository (relative names)
+func pkgFiles(dir string) []string {
+	ents, err := os.ReadDir(filepath.Join(repo, dir))
+	if err != nil {
+		return nil
+	}
+	var out []string
+	for _, e := range ents {
+		n := e.Name()
+		if e.IsDir() || !strings.HasSuffix(n, ".go") || strings.HasSuffix(n, "_test.go") || strings.HasPrefix(n, "verif_") {
+			continue
+		}
+		out = append(out, filepath.Join(dir, n))
+	}
+	sort.Strings(out)
+	return out
+}
+
+func allSource(dir string) string {
+	var b strings.Builder
+	for _, f := range pkgFiles(dir) {
+		data, _ := os.ReadFile(filepath.Join(repo, f))
+		b.Write(data)
+	}
+	return b.String()
 }
 
 func bytesOf(s string) []int {
